@@ -689,6 +689,14 @@ def r9_declared_order(ctx, res):
                                 f'{[(r[1][:50], list(r[3])) for r in apps][:2]}')
 
 
+def r10_export_written_wellformed(ctx, res):
+    """export() writes through lmf.dump: a stored value that the writer prints without quoteattr()/ElementTree (a line break,
+    tab or quote in a lexicon-level attribute) is altered by XML attribute-value normalisation when the export is read back
+    (writer analysis of C02-R5)."""
+    from .c02 import r5_escaping
+    r5_escaping(ctx, res)
+
+
 RULES = [
     ('C03-R1', r1_coverage, 75),
     ('C03-R2', r2_guard_consistency, 3),
@@ -699,4 +707,5 @@ RULES = [
     ('C03-R7', r7_no_shared_records, 3),
     ('C03-R8', r8_value_independent, 8),
     ('C03-R9', r9_declared_order, 2),
+    ('C03-R10', r10_export_written_wellformed, 7),
 ]
